@@ -26,7 +26,11 @@ exactly (STRICT's precondition).
 
 User variable names come from a naming scheme; two of the schemes use exactly
 the names the rewrites generate (`t n i m j`, `_src _i acc b`) and one uses the
-numbered forms (`t7`, `i9`, ...).
+numbered forms (`t8`, `i9`, ...) in the window Gensym numbers from.
+
+Every generator returns the whole (thorough) list with a flag per program saying
+whether it belongs to the quick core; `all_programs('quick', seed)` is the core
+plus every m-th program of the rest starting at `seed mod m`.
 """
 
 from __future__ import annotations
@@ -77,13 +81,12 @@ def bumpv(zs: list[fp.Real], x: fp.Real) -> fp.Real:
 
 
 class Prog:
-    __slots__ = ('family', 'src', 'tags', 'key')
+    __slots__ = ('family', 'src', 'tags')
 
     def __init__(self, family: str, src: str, tags: dict):
         self.family = family
         self.src = src
         self.tags = tags          # header / position / features: what signatures are made of
-        self.key = tags.get('key', '')
 
     def __repr__(self):
         return f'Prog({self.family}, {self.tags})'
